@@ -20,6 +20,7 @@ def run(pid, path):
     if kind == "D":
         from . import dsession
         new = dsession.rerun_trace(1, trace)
+        new["owner"] = pid
         verdicts, _ = tlcio.monitor("Trace_D.tla", "Trace_D.cfg", f"replay-{pid}", [new], workers=1)
     else:
         from . import registry
